@@ -272,6 +272,26 @@ def c13(ctx):
     _fp(ctx, 'fclass')
 
 
+def c16(ctx):
+    ctx.assumptions += LANE_ASSUME + FP_ASSUME[1:3] + [
+        'the scalar overloads are judged by the same lane semantics as the vector lanes (equality of scalar and lane follows through the specification); inputs restricted to the documented domain by the specification itself',
+        'scalar feature subsets: every subset of {X86, POPCNT, LZCNT, BMI, BMI2} in the thorough tier, a covering selection in the quick tier']
+    cfgs = runner.configs.scalar_configs(ctx.tier)
+    env = {'VH_SCALAR_ONLY': '1'}
+    if ctx.tier != 'thorough':
+        env['VH_LIGHT'] = '1'     # 8-bit pairs / 16-bit values on the lattice (C06 / C07 judge the exhaustive sets)
+
+    def conf():
+        for fam in ('bitfn', 'select', 'bits', 'mixcmp'):
+            runner.lane_facts(ctx, 'drv_int.cpp', fam, INT_GROUPS, cfgs=cfgs, run_env=env)
+        for fam in ('farith', 'fround', 'fmanip', 'fclass', 'fselect'):
+            runner.lane_facts(ctx, 'drv_fp.cpp', fam, FP_GROUPS, cfgs=cfgs, run_env=env)
+
+    def mc():
+        mc_intlane(ctx, ['C16', 'C06', 'C07'])
+    _with_mc(ctx, mc, conf)
+
+
 CHECKS = {
-    'C01': c01, 'C02': c02, 'C03': c03, 'C04': c04, 'C05': c05, 'C06': c06, 'C07': c07, 'C08': c08, 'C09': c09, 'C10': c10, 'C11': c11, 'C12': c12, 'C13': c13, 'C14': c14, 'C15': c15, 'C18': c18, 'C20': c20,
+    'C01': c01, 'C02': c02, 'C03': c03, 'C04': c04, 'C05': c05, 'C06': c06, 'C07': c07, 'C08': c08, 'C09': c09, 'C10': c10, 'C11': c11, 'C12': c12, 'C13': c13, 'C14': c14, 'C16': c16, 'C15': c15, 'C18': c18, 'C20': c20,
 }
